@@ -25,6 +25,17 @@ type fn struct {
 	// DecisionIfs are the condition line ranges of `if` statements whose body ends in
 	// return / continue / break: accept-reject decisions.
 	DecisionIfs [][2]int `json:"decision_ifs"`
+	// ReturnCalls: plain function calls that appear inside `return` statements (callee, line of the statement);
+	// OtherCalls: plain function calls anywhere else. A helper that is only ever called from return statements
+	// computes the returned verdict of its caller ("return cmpVerdict(borrow, nonZero)").
+	ReturnCalls []call   `json:"return_calls"`
+	OtherCalls  []string `json:"other_calls"`
+}
+
+type call struct {
+	Callee string `json:"callee"`
+	Line   int    `json:"line"`
+	InLoop bool   `json:"in_loop"`
 }
 
 // alwaysExits reports whether a statement list unconditionally leaves the enclosing function or
@@ -45,6 +56,18 @@ func alwaysExits(list []ast.Stmt) bool {
 				return true
 			}
 		}
+	case *ast.SwitchStmt:
+		hasDefault := false
+		for _, c := range s.Body.List {
+			cc := c.(*ast.CaseClause)
+			if cc.List == nil {
+				hasDefault = true
+			}
+			if !alwaysExits(cc.Body) {
+				return false
+			}
+		}
+		return hasDefault
 	case *ast.IfStmt:
 		if s.Else == nil || !alwaysExits(s.Body.List) {
 			return false
@@ -97,6 +120,62 @@ func main() {
 				case *ast.IfStmt:
 					if alwaysExits(s.Body.List) {
 						x.DecisionIfs = append(x.DecisionIfs, [2]int{fset.Position(s.Cond.Pos()).Line, fset.Position(s.Cond.End()).Line})
+					}
+				case *ast.SwitchStmt:
+					// a clause whose body always leaves is the same decision as `if cond { leave }`
+					for _, c := range s.Body.List {
+						cc := c.(*ast.CaseClause)
+						if !alwaysExits(cc.Body) {
+							continue
+						}
+						for _, e := range cc.List {
+							x.DecisionIfs = append(x.DecisionIfs, [2]int{fset.Position(e.Pos()).Line, fset.Position(e.End()).Line})
+						}
+						if s.Tag != nil {
+							x.DecisionIfs = append(x.DecisionIfs, [2]int{fset.Position(s.Tag.Pos()).Line, fset.Position(s.Tag.End()).Line})
+						}
+					}
+				}
+				return true
+			})
+			// calls inside return statements / elsewhere (plain identifiers only: helpers of the same package)
+			inRet := map[*ast.CallExpr]bool{}
+			var loops []ast.Node
+			ast.Inspect(fd.Body, func(n ast.Node) bool {
+				switch n.(type) {
+				case *ast.ForStmt, *ast.RangeStmt:
+					loops = append(loops, n)
+				}
+				return true
+			})
+			insideLoop := func(n ast.Node) bool {
+				for _, l := range loops {
+					if n.Pos() >= l.Pos() && n.End() <= l.End() {
+						return true
+					}
+				}
+				return false
+			}
+			ast.Inspect(fd.Body, func(n ast.Node) bool {
+				if rs, ok := n.(*ast.ReturnStmt); ok {
+					for _, res := range rs.Results {
+						ast.Inspect(res, func(m ast.Node) bool {
+							if ce, ok := m.(*ast.CallExpr); ok {
+								if id, ok := ce.Fun.(*ast.Ident); ok {
+									inRet[ce] = true
+									x.ReturnCalls = append(x.ReturnCalls, call{Callee: id.Name, Line: fset.Position(rs.Pos()).Line, InLoop: insideLoop(rs)})
+								}
+							}
+							return true
+						})
+					}
+				}
+				return true
+			})
+			ast.Inspect(fd.Body, func(n ast.Node) bool {
+				if ce, ok := n.(*ast.CallExpr); ok && !inRet[ce] {
+					if id, ok := ce.Fun.(*ast.Ident); ok {
+						x.OtherCalls = append(x.OtherCalls, id.Name)
 					}
 				}
 				return true
